@@ -313,4 +313,199 @@ example : LinkValid (S := Bytes) ⟨[], (· ++ ·), id, List.isEmpty⟩ (fun s =
     { ck := [109], ek := [101], nodes := [.label [115], .query [101]] } :=
   ⟨fun _ => ⟨2000, by decide, rfl, by decide⟩, by decide, by decide⟩
 
+/-! ## config loaders (accept / reject level) -/
+
+/-- **readUserFile**: the file is accepted iff every relevant line (non-empty after trimming blanks, no `#`
+    anywhere) has 2 or 3 `:`-separated parts, and then the entries are exactly the (space-trimmed) first two
+    fields of the relevant lines in file order (the map keeps the last entry of a user: `lookupLast`). -/
+theorem C51_load_userfile_iff (lines : List Bytes) (ents : List (Bytes × Bytes)) :
+    loadUserLines lines = some ents ↔
+      (∀ l ∈ lines, userLineRelevant l = true →
+        (userLineParts l).length = 2 ∨ (userLineParts l).length = 3) ∧
+      ents = (lines.filter userLineRelevant).map userLineEntry := by
+  induction lines generalizing ents with
+  | nil =>
+    simp only [loadUserLines, Option.some.injEq, List.not_mem_nil, false_imp_iff, implies_true, true_and,
+      List.filter_nil, List.map_nil]
+    exact eq_comm
+  | cons raw rest ih =>
+    unfold loadUserLines
+    by_cases hrel : userLineRelevant raw = true
+    · simp only [hrel, Bool.not_true, Bool.false_eq_true, if_false]
+      by_cases hparts : (userLineParts raw).length = 2 ∨ (userLineParts raw).length = 3
+      · have hcond : ((userLineParts raw).length != 2 && (userLineParts raw).length != 3) = false := by
+          rcases hparts with h | h <;> simp [h]
+        simp only [hcond, Bool.false_eq_true, if_false]
+        cases hr : loadUserLines rest with
+        | none =>
+          constructor
+          · intro h; exact absurd h (by simp)
+          · rintro ⟨hall, _⟩
+            have := (ih ((rest.filter userLineRelevant).map userLineEntry)).mpr
+              ⟨fun l hl => hall l (List.mem_cons_of_mem _ hl), rfl⟩
+            rw [hr] at this
+            exact absurd this (by simp)
+        | some es =>
+          have hes := (ih es).mp hr
+          simp only [Option.some.injEq]
+          constructor
+          · rintro rfl
+            refine ⟨?_, by simp [List.filter_cons, hrel, hes.2]⟩
+            intro l hl
+            simp only [List.mem_cons] at hl
+            rcases hl with rfl | hl
+            · intro _; exact hparts
+            · exact hes.1 l hl
+          · rintro ⟨_, he⟩
+            rw [he, hes.2]
+            simp [List.filter_cons, hrel]
+      · have hcond : ((userLineParts raw).length != 2 && (userLineParts raw).length != 3) = true := by
+          simp only [Bool.and_eq_true, bne_iff_ne, ne_eq]
+          exact ⟨fun h => hparts (Or.inl h), fun h => hparts (Or.inr h)⟩
+        simp only [hcond, if_true]
+        constructor
+        · intro h; exact absurd h (by simp)
+        · rintro ⟨hall, _⟩
+          exact absurd (hall raw (by simp) hrel) hparts
+    · have hrel' : userLineRelevant raw = false := by simpa using hrel
+      simp only [hrel', Bool.not_false, if_true]
+      rw [ih]
+      constructor
+      · rintro ⟨hall, he⟩
+        refine ⟨?_, by simp [List.filter_cons, hrel', he]⟩
+        intro l hl
+        simp only [List.mem_cons] at hl
+        rcases hl with rfl | hl
+        · intro h; rw [hrel'] at h; exact absurd h (by simp)
+        · exact hall l hl
+      · rintro ⟨hall, he⟩
+        refine ⟨fun l hl => hall l (List.mem_cons_of_mem _ hl), ?_⟩
+        rw [he]
+        simp [List.filter_cons, hrel']
+
+/-- **NewRule** (mod_secure_link): accepted iff Cond is present and builds, ChecksumKey is not the empty string,
+    ExpressionNodes is present and every node type is (case-insensitively) a supported one; then the checksum
+    key defaults to "md5" and the expiry key to "". -/
+theorem C51_load_securelink_iff (rf : SlRuleFile) (r : SlRule) :
+    newRule rf = some r ↔
+      rf.cond = some true ∧ rf.ck ≠ some [] ∧
+      ∃ nfs ns, rf.nodes = some nfs ∧ (∀ n ∈ nfs, nodeTypeOK n.ty = true) ∧ newNodes nfs = some ns ∧
+        r = { ck := rf.ck.getD md5Key, ek := rf.ek.getD [], nodes := ns } := by
+  unfold newRule
+  cases hc : rf.cond with
+  | none => simp
+  | some b =>
+    cases b with
+    | false => simp
+    | true =>
+      by_cases hck : rf.ck = some []
+      · simp [hck]
+      · simp only [hck, if_false, true_and, ne_eq, not_false_eq_true]
+        cases hn : rf.nodes with
+        | none => simp
+        | some nfs =>
+          cases hns : newNodes nfs with
+          | none =>
+            simp only [hns]
+            constructor
+            · intro h; exact absurd h (by simp)
+            · rintro ⟨nfs', ns, h1, _, h3, _⟩
+              cases h1
+              rw [hns] at h3
+              exact absurd h3 (by simp)
+          | some ns =>
+            simp only [hns, Option.some.injEq]
+            constructor
+            · intro h
+              refine ⟨nfs, ns, rfl, ?_, hns, h.symm⟩
+              exact (newNodes_isSome_iff nfs).mp (by rw [hns]; rfl)
+            · rintro ⟨nfs', ns', h1, _, h3, h4⟩
+              cases h1
+              rw [hns] at h3
+              cases h3
+              exact h4.symm
+
+/-- **ProductRuleConfLoad** (mod_block), for one product: accepted iff Version is present and every rule has a
+    condition that builds, a name, an action whose command is CLOSE or ALLOW with an empty (non-nil) parameter
+    list, and the names are pairwise distinct. -/
+theorem C51_load_block_iff (hasVersion : Bool) (rs : List BlockRuleFile) (n : Nat) :
+    blockConfLoad hasVersion (some rs) = some n ↔
+      hasVersion = true ∧ (∀ r ∈ rs, blockRuleFileOK r = true) ∧
+      namesDistinct (rs.map (·.name)) = true ∧ n = rs.length := by
+  unfold blockConfLoad
+  cases hasVersion with
+  | false => simp
+  | true =>
+    simp only [Bool.not_true, Bool.false_eq_true, if_false, true_and]
+    by_cases h : (rs.all blockRuleFileOK && namesDistinct (rs.map (·.name))) = true
+    · simp only [h, if_true, Option.some.injEq]
+      simp only [Bool.and_eq_true, List.all_eq_true] at h
+      constructor
+      · intro hn; exact ⟨h.1, h.2, hn.symm⟩
+      · rintro ⟨_, _, hn⟩; exact hn.symm
+    · simp only [h, Bool.false_eq_true, if_false]
+      constructor
+      · intro hh; exact absurd hh (by simp)
+      · rintro ⟨h1, h2, _⟩
+        exact absurd (by simp only [Bool.and_eq_true, List.all_eq_true]; exact ⟨h1, h2⟩) h
+
+/-- the loader models are total: for every file content / decoded structure the decision is "error" or
+    "accepted with this table" (there is no third outcome; a PANIC of the real loader is FAIL:loader-panic
+    in the oracle - crash freedom of the Go code itself is exercised, not proved). -/
+theorem C51_load_no_crash_userfile (content : Bytes) :
+    readUserFile content = none ∨ ∃ ents, readUserFile content = some ents := by
+  cases h : readUserFile content with
+  | none => exact Or.inl rfl
+  | some e => exact Or.inr ⟨e, rfl⟩
+
+theorem C51_load_no_crash_securelink (v : Bool) (cfg : Option (List (Option SlRuleFile))) :
+    newData v cfg = none ∨ ∃ rs, newData v cfg = some rs := by
+  cases h : newData v cfg with
+  | none => exact Or.inl rfl
+  | some e => exact Or.inr ⟨e, rfl⟩
+
+theorem C51_load_no_crash_block (v : Bool) (cfg : Option (List BlockRuleFile)) :
+    blockConfLoad v cfg = none ∨ ∃ n, blockConfLoad v cfg = some n := by
+  cases h : blockConfLoad v cfg with
+  | none => exact Or.inl rfl
+  | some e => exact Or.inr ⟨e, rfl⟩
+
+/-! ## realm quoting -/
+
+/-- the challenge is the RFC 7235 form `scheme realm=<quoted-string>` whenever the realm has no `"` and `\\`. -/
+theorem C51_challenge_partial (scheme : String) (realm : Bytes) (h : realmClean realm = true) :
+    challenge scheme realm = challengeSpec scheme realm := by
+  unfold challenge challengeSpec
+  rw [quoteEsc_of_clean realm h]
+
+/-- **witness** (`realm-unescaped`): realm `"` gives `Basic realm="""` instead of `Basic realm="\\""`. -/
+theorem C51_witness_realm_quote : challenge "Basic" [34] ≠ challengeSpec "Basic" [34] := by
+  unfold challenge challengeSpec
+  intro h
+  have h1 := List.append_cancel_right h
+  have h2 := List.append_cancel_left h1
+  simp [quoteEsc] at h2
+
+/-! non-vacuity: the documented examples are accepted -/
+
+/-- docs/en_us/modules/mod_auth_basic: comment line, apr1 line, 3-field SHA line (shortened hashes) -/
+example : readUserFile [35, 32, 99, 10, 117, 49, 58, 36, 97, 112, 114, 49, 36, 120, 10, 32, 117, 50, 32, 58, 32, 123, 83, 72, 65, 125, 121, 61, 32, 58, 110, 10] =
+    some [([117, 49], [36, 97, 112, 114, 49, 36, 120]), ([117, 50], [123, 83, 72, 65, 125, 121, 61])] := by decide
+
+/-- docs/en_us/modules/mod_secure_link: the documented rule -/
+example : (newRule ⟨some true, some [115, 105, 103, 110], some [116, 105, 109, 101],
+      some [⟨tyQuery, [116, 105, 109, 101]⟩, ⟨[85, 82, 73], []⟩, ⟨tyRemoteAddr, []⟩, ⟨tyLabel, [32, 115]⟩]⟩).map
+      (fun r => (r.ck, r.ek, r.nodes)) =
+    some ([115, 105, 103, 110], [116, 105, 109, 101],
+      [.query [116, 105, 109, 101], .uri, .remoteAddr, .label [32, 115]]) := by decide
+
+example : (newRule ⟨some true, some [], none, some []⟩).isSome = false := by decide
+example : (newRule ⟨some true, none, none, some []⟩).map (·.ck) = some md5Key := by decide
+
+/-- docs/en_us/modules/mod_block: the documented example rule -/
+example : blockConfLoad true (some [⟨some true, some [101], some (some cmdClose, some 0)⟩]) = some 1 := by decide
+example : blockConfLoad true (some [⟨some true, some [101], some (some [68], some 0)⟩]) = none := by decide
+
+example : realmClean [82, 101] = true := by decide
+
 end BfeVerif.C51
